@@ -27,11 +27,12 @@ ASSUMPTIONS = [
     "declared manifolds are those of the class docstrings: LineClamp p1 + t*unit(p2-p1) with t in bounds (default "
     "(0, |p2-p1|)); RadialClamp creation position turned about (center, normal) by t/r; CurveClamp curve.get_point(t), "
     "t in curve.bounds; ParametricSurfaceClamp function(u, v) inside bounds; PlaneClamp any point of the plane",
-    "creation accuracy: the library finds the parameters with scipy.optimize.minimize(distance, tol=TOL=1e-7), i.e. "
-    "L-BFGS-B stops when the distance decreases by less than 1e-7*max(distance, 1). On the manifold the distance is a "
-    "cone (measured worst error 4.5e-6 absolute below scale 1, 9e-7 at scale 10-100, in 40 000 cases): tolerance "
-    "5e-4*max(1, scale). Off the manifold at distance h the stopping rule allows sqrt(2e-7*h*max(h, 1)) along the "
-    "manifold (measured worst 52 % of that): tolerance 5e-4*max(1, scale) + 10*sqrt(2e-7*h*max(h, 1))",
+    "creation accuracy: the library finds the parameters with scipy.optimize.minimize(distance, tol=TOL=1e-7); L-BFGS-B "
+    "stops when the distance decreases by less than 1e-7*max(distance, 1), and the distance is a cone around an "
+    "on-manifold position, so the minimiser occasionally stalls: measured over 60 000 creations, scale 0.1..100, the "
+    "error is below 1e-6*max(1, scale) in 99.9 % of cases, worst 1.2e-5 (scale < 1), 8.1e-5 (scale 1-10), 5e-4 (scale "
+    "10-100, off-manifold). Tolerance 1e-3 + 1e-2*scale (>= 100x the worst); off the manifold at distance h the "
+    "stopping rule allows sqrt(2e-7*h*max(h, 1)) along the manifold (measured worst 52 % of that): 10x that is added",
     "position for given parameters: 1e-9*(scale + |position|) from the declared point (float noise only)",
     "off-manifold offsets stay below the reach of the curved manifolds (|c| <= 0.5, radius >= 0.6 scale, offset <= "
     "0.4 scale) so the closest point is unique",
@@ -41,7 +42,7 @@ ASSUMPTIONS = [
     "links are given float arrays (as the optimizer does), never integer arrays",
 ]
 
-TOL_ON = 5e-4  # times max(1, scale)
+TOL_CREATE_ABS, TOL_CREATE_REL = 1e-3, 1e-2
 TOL_PARAM = 1e-9
 TOL_LINK = 1e-9
 TOL_ROT = 1e-6
@@ -104,14 +105,12 @@ def check_clamp(case, ctx: Ctx) -> None:
     pos = np.array(clamp.position, dtype=float)
 
     # a freshly created clamp reports its creation position / the closest point of the constraint
-    want = man.closest(p) if (off is not None and man.closest(p) is not None) else p
-    if kind == "polyline" and off is not None:
-        want = None  # closest point of a polyline may be non-unique near a corner: distance-based below
-    tol = TOL_ON * max(1.0, s)
-    if off is not None and want is not None:
-        h = float(np.linalg.norm(np.asarray(want) - p))
-        tol += 10 * math.sqrt(2e-7 * h * max(h, 1.0))
+    tol = TOL_CREATE_ABS + TOL_CREATE_REL * s
+    want = p if off is None else man.closest(p)
     if want is not None:
+        if off is not None:
+            h = float(np.linalg.norm(np.asarray(want) - p))
+            tol += 10 * math.sqrt(2e-7 * h * max(h, 1.0))
         err = float(np.linalg.norm(pos - want))
         if not err <= tol:
             raise Violation(
@@ -120,13 +119,13 @@ def check_clamp(case, ctx: Ctx) -> None:
                 f"(error {err:.3g} > {tol:.3g})",
                 error_rel=err / s, **facts,
             )
+        ctx.label("creation-error<=1e%+03d" % max(-16, math.ceil(math.log10(max(err / s, 1e-16)))))
     else:
+        # polyline: the closest point can be non-unique next to a corner, so compare distances, not points
         dmin = man.residual(p)
         if man.residual(pos) > tol or float(np.linalg.norm(pos - p)) > dmin + tol:
             raise Violation("creation-not-closest", f"{kind} clamp created at {p.tolist()} reports {pos.tolist()}: "
                             f"distance {np.linalg.norm(pos - p):.6g}, closest {dmin:.6g}", **facts)
-    if want is not None:
-        ctx.label("creation-error<=1e%+03d" % max(-16, math.ceil(math.log10(max(err / s, 1e-16)))))
     if not np.array_equal(given, p):
         raise Violation("creation-mutates-argument", "the position passed to the clamp was modified", **facts)
 
@@ -290,22 +289,22 @@ def check_link(kind: str):
 
 
 CELLS = [
-    Cell("C17/clamp/free", clamp_case(xm.spec_free(), allow_off=False), check_clamp, 40, 1500,
+    Cell("C17/clamp/free", clamp_case(xm.spec_free(), allow_off=False), check_clamp, 60, 1500,
          "FreeClamp reports its creation position"),
-    Cell("C17/clamp/line", clamp_case(xm.spec_line(1.5)), check_clamp, 90, 3000,
+    Cell("C17/clamp/line", clamp_case(xm.spec_line(1.5)), check_clamp, 250, 3000,
          "LineClamp with and without bounds: creation on / off the segment, positions p1 + t*unit(p2 - p1)"),
-    Cell("C17/clamp/radial", clamp_case(xm.spec_radial(1.5), allow_off=False), check_clamp, 70, 2500,
+    Cell("C17/clamp/radial", clamp_case(xm.spec_radial(1.5), allow_off=False), check_clamp, 200, 2500,
          "RadialClamp with and without bounds: same radius and height about the axis, arc-length parameter"),
-    Cell("C17/clamp/plane", clamp_case(xm.spec_plane()), check_clamp, 70, 2500,
+    Cell("C17/clamp/plane", clamp_case(xm.spec_plane()), check_clamp, 200, 2500,
          "PlaneClamp: creation on / off the plane (orthogonal projection), n.(x - p) = 0 for any parameters"),
     Cell("C17/clamp/curve", clamp_case(st.one_of(xm.spec_curve(1.0), xm.spec_circle(1.5), xm.spec_polyline())),
-         check_clamp, 90, 3000, "CurveClamp on an analytic parabola, a CircleCurve arc, a LinearInterpolatedCurve"),
-    Cell("C17/clamp/surface", clamp_case(xm.spec_surface(1.0)), check_clamp, 60, 2000,
+         check_clamp, 300, 3000, "CurveClamp on an analytic parabola, a CircleCurve arc, a LinearInterpolatedCurve"),
+    Cell("C17/clamp/surface", clamp_case(xm.spec_surface(1.0)), check_clamp, 200, 2000,
          "ParametricSurfaceClamp on a saddle patch with / without bounds and initial parameters"),
-    Cell("C17/link/translation", link_case("translation"), check_link("translation"), 60, 2000,
+    Cell("C17/link/translation", link_case("translation"), check_link("translation"), 200, 2000,
          "follower = leader + original offset; leader bit-identical after update()"),
-    Cell("C17/link/rotation", link_case("rotation"), check_link("rotation"), 70, 2500,
+    Cell("C17/link/rotation", link_case("rotation"), check_link("rotation"), 200, 2500,
          "follower = original follower turned about the axis by the leader's azimuth change (on and off the circle)"),
-    Cell("C17/link/symmetry", link_case("symmetry"), check_link("symmetry"), 60, 2000,
+    Cell("C17/link/symmetry", link_case("symmetry"), check_link("symmetry"), 200, 2000,
          "follower = mirror image of the leader (reference 4x4 reflection); leader bit-identical after __init__ / update()"),
 ]
